@@ -8,7 +8,7 @@ from pathlib import Path
 
 from vf import chains
 from vf.core import SECTOR, BytesModel, Layer, Model, as_handle, rng_for
-from vf.diskcheck import compare_reads, gen_requests, mismatch_detail
+from vf.diskcheck import compare_reads, continuation_reads, gen_requests, mismatch_detail
 from vf.monitors import call
 
 ID = "C07"
@@ -141,6 +141,7 @@ def run(case: dict, ctx) -> dict:
         for _ in range(4):
             reqs.append((max(0, h_ + rng.randrange(-70000, (1 << 20))), rng.randrange(1, 150000)))
     cnt["vhdx_beyond_first_chunk_cases"] = int(bool(hot))
+    continuation_reads(s, model, reqs, rng, res, MECH)
     compare_reads(s, model, reqs, res, MECH, byte_cap=(24 << 20))
     _layer_hits(model, reqs, res)
     if op.read_sectors is not None and not res["viol"]:
@@ -164,6 +165,21 @@ def run(case: dict, ctx) -> dict:
                 res["viol"].append({"what": "read_sectors content mismatch", "mech": MECH, "detail": mismatch_detail(s0 * ss, c * ss, o2.value, exp)})
                 break
         res["sets"]["sector_start_residues_mod_8"] = sorted(residues)
+    if k == "hdd-snapshots" and not res["viol"]:
+        # the same HDD object opened again and again (same and other snapshots): every stream is its own view
+        for rep in range(4):
+            gid, lm = rng.choice(op.levels) if rep % 2 else op.levels[op.info["opened_depth"] - 1]
+            o3 = call(op.hdd.open, gid)
+            cnt["hdd_reopen_checks"] = cnt.get("hdd_reopen_checks", 0) + 1
+            if not o3.ok:
+                res["viol"].append({"what": f"re-opening a snapshot on the same HDD object failed: {o3.brief()}", "mech": MECH, "detail": {"tb": o3.tb}})
+                break
+            rq, _ = gen_requests(rng, lm.size, [4096], n_random=10, pair_cap=25)
+            rq.append((0, lm.size))
+            compare_reads(o3.value, lm, rq, res, MECH, byte_cap=8 << 20)
+            if res["viol"]:
+                res["viol"][-1]["what"] += f" (open #{rep + 2} on the same HDD object)"
+                break
     cnt[f"{k}_cases"] = 1
     cnt["vhdx_partial_blocks"] = op.info.get("partial_blocks", 0)
     res["sets"]["depths"] = [f"{k}:{op.info.get('depth')}"]
